@@ -124,6 +124,7 @@ def run(ctx) -> None:
                     "race tolerant; writers cannot be fatal; the disabled switch returns before any cache I/O.")
     ctx.rule(rule_loads)
     ctx.rule(rule_lock)
+    ctx.rule(rule_replace)
     ctx.rule(rule_writers)
     ctx.rule(rule_switch)
     ctx.chk.assumptions = ["pickle's documented failure set; filelock.Timeout is a TimeoutError (OSError); FileLock gives mutual exclusion between processes",
@@ -317,11 +318,28 @@ def rule_lock(ctx) -> None:
                 ign = A.arg_of(c, 1, "ignore_errors")
                 ctx.chk.decide(covers(hc, FileNotFoundError) or (ign is not None and prog.fold(ign, m) is True), "C18.remove-race", f"{DB}::{fn.name} rmtree",
                                "cache directory removal tolerates concurrent removal", norm(c), "try/except OSError", A.loc(DB, c))
-            if d == "os.makedirs":
+    # every directory creation on the cache path tolerates a concurrent creation
+    for rp in (DB, "spsdk/__init__.py"):
+        mm = ctx.m(rp)
+        for fnode in [n for n in ast.walk(mm.tree) if isinstance(n, (ast.FunctionDef, ast.Module))]:
+            for c in A.calls_in(fnode):
+                d = A.dotted(c.func) or ""
+                if d not in ("os.makedirs", "os.mkdir"):
+                    continue
+                if isinstance(fnode, ast.Module) and any(isinstance(a, ast.FunctionDef) for a in A.ancestors(c)):
+                    continue
                 eo = A.arg_of(c, None, "exist_ok")
-                tr = enclosing_try(c, fn)
-                ctx.chk.decide((eo is not None and prog.fold(eo, m) is True), "C18.mkdir-race", f"{DB}::{fn.name} makedirs",
-                               "exist_ok=True (two processes creating the cache folder)", norm(c), "exist_ok=True", A.loc(DB, c))
+                tol = eo is not None and prog.fold(eo, mm) is True
+                if not tol:
+                    tr = enclosing_try(c, fnode) if not isinstance(fnode, ast.Module) else None
+                    hc2: list = []
+                    if tr is not None:
+                        for h in tr.handlers:
+                            hc2 += handler_classes(prog, mm, h) or []
+                    tol = covers(hc2, FileExistsError) or suppressed_by(c, prog, mm, "FileExistsError")
+                nm = getattr(fnode, "name", "<module>")
+                ctx.chk.decide(bool(tol), "C18.mkdir-race", f"{rp}::{nm} {norm(c)[:60]}", "directory creation tolerates a concurrent creation (exist_ok=True / handled)",
+                               f"`{norm(c)}` races between processes on a cold cache (check-then-create)", "os.makedirs(..., exist_ok=True)", A.loc(rp, c))
     # rmtree in clear_cache (no pickle there)
     for n in ast.walk(m.tree):
         if isinstance(n, ast.FunctionDef) and n.name == "clear_cache":
@@ -336,6 +354,49 @@ def rule_lock(ctx) -> None:
     ctx.chk.decide(len(lock_names) == 1, "C18.lock-name", DB, f"all cache I/O sites derive the lock name the same way: {sorted(lock_names)}",
                    f"lock names differ between sites: {sorted(lock_names)}", "one convention <file> + '.lock'", DB)
     ctx.chk.floor("C18.lock", 4)
+
+
+def rule_replace(ctx) -> None:
+    """C18.replace: a writer that first loads+merges the existing file (and gives up when that load fails) can only replace a damaged
+    or stale cache if every reader path that found the file invalid removed it."""
+    prog = ctx.prog
+    m, fns = _cache_functions(ctx)
+    merge_writers = []
+    for fn in fns:
+        loads = [c for c in A.calls_in(fn) if (A.dotted(c.func) or "") == "pickle.load"]
+        dumps = [c for c in A.calls_in(fn) if (A.dotted(c.func) or "") == "pickle.dump"]
+        for l in loads:
+            for d in dumps:
+                if l.lineno < d.lineno and enclosing_try(l, fn) is enclosing_try(d, fn):
+                    merge_writers.append(fn)
+    if not merge_writers:
+        ctx.chk.ok("C18.replace", DB, "no writer reads the existing cache before overwriting it; a damaged file is simply overwritten")
+        return
+    for w in merge_writers:
+        # readers of the same file-name getter
+        getters = {A.call_name(c) for c in A.calls_in(w) if "cache_filename" in A.call_name(c) or "db_path" in A.call_name(c)}
+        for fn in fns:
+            if fn is w or not any(A.call_name(c) in getters for c in A.calls_in(fn)):
+                continue
+            for call in [c for c in A.calls_in(fn) if (A.dotted(c.func) or "") == "pickle.load"]:
+                tr = enclosing_try(call, fn)
+                if tr is None:
+                    continue
+                site = f"{DB}::{fn.name} (writer {w.name} merges the existing file)"
+                for h in tr.handlers:
+                    rm = [c for c in A.calls_in(ast.Module(body=h.body, type_ignores=[])) if (A.dotted(c.func) or "") in ("os.remove", "os.unlink")]
+                    ctx.chk.decide(bool(rm), "C18.replace", site + " handler", "a cache file that failed to load is removed, so the merging writer can replace it",
+                                   "damaged cache file is left in place; the writer re-reads it, fails and never replaces it", "os.remove(cache file) in the handler", A.loc(DB, h))
+                var = None
+                st = A.enclosing_stmt(call)
+                if isinstance(st, ast.Assign) and isinstance(st.targets[0], ast.Name):
+                    var = st.targets[0].id
+                for n in [x for s in tr.body for x in A.walk_no_nested(s)]:
+                    if isinstance(n, ast.If) and isinstance(n.test, ast.Compare) and var and f"{var}.db_hash" in norm(n.test):
+                        stale = n.body if isinstance(n.test.ops[0], ast.NotEq) else n.orelse
+                        rm = [c for c in A.calls_in(ast.Module(body=stale, type_ignores=[])) if (A.dotted(c.func) or "") in ("os.remove", "os.unlink")]
+                        ctx.chk.decide(bool(rm), "C18.replace", site + " stale branch", "a stale cache file is removed, so its entries cannot be merged back by the writer",
+                                       "stale cache file is left in place; the merging writer copies its outdated entries into the new cache", "os.remove(cache file) when the fingerprint differs", A.loc(DB, n))
 
 
 def rule_writers(ctx) -> None:
